@@ -1,61 +1,68 @@
 (* C05: dialing a peer at an address yields a link to that peer or keeps retrying. *)
 From Bifrost Require Import Lib.Base Link.Model Link.Maps Dial.Model Dial.Proofs.
 
-(* s : the transport's table address -> authenticated remote peer of the link
-   registered there; x : requested peer (non-empty); a : address; who answers
-   at a is an input.  DialPeer reports success with a link only if its remote
-   peer is x, and then x is who answered and the link is registered at a. *)
-Theorem c05_dial_safe : forall s x a who p s',
-  x <> 0 -> dial_peer s x a who = (DLink p, s') -> p = x /\ aget a s' = Some x /\ who = Peer x.
+(* s : the transport's table resolved address -> authenticated remote peer of
+   the link registered there; x : requested peer (non-empty); a : the dial
+   string, ra : its resolved form sess.RemoteAddr().String() (= a for canonical
+   addresses, different for host names / alias forms); who answers is an input.
+   DialPeer reports success with a link only if its remote peer is x, and then
+   x is who answered and the link is registered at ra. *)
+Theorem c05_dial_safe : forall s x a ra who p s',
+  x <> 0 -> dial_peer s x a ra who = (DLink p, s') -> p = x /\ aget ra s' = Some x /\ who = Peer x.
 Proof. exact dial_peer_safe. Qed.
 Print Assumptions c05_dial_safe.
 
-(* success without a link ("already connected") only when the link at a is to x *)
-Theorem c05_dial_already_connected : forall s x a who s',
-  dial_peer s x a who = (DNoLink, s') -> s' = s /\ aget a s = Some x.
+Theorem c05_dial_already_connected : forall s x a ra who s',
+  dial_peer s x a ra who = (DNoLink, s') -> s' = s /\ aget a s = Some x.
 Proof. exact dial_peer_nolink. Qed.
 Print Assumptions c05_dial_already_connected.
 
-(* a different peer answering is an error, never a link to x *)
-Theorem c05_impostor_is_error : forall s x a i,
-  x <> 0 -> i <> x -> fst (dial_peer s x a (Peer i)) <> DLink x /\
-  (aget a s = None -> fst (dial_peer s x a (Peer i)) = DErr).
+Theorem c05_impostor_is_error : forall s x a ra i,
+  x <> 0 -> i <> x -> fst (dial_peer s x a ra (Peer i)) <> DLink x /\
+  (aget a s = None -> fst (dial_peer s x a ra (Peer i)) = DErr).
 Proof. exact dial_peer_impostor. Qed.
 Print Assumptions c05_impostor_is_error.
 
-(* over any sequence of dial calls and link losses, every returned link is to x *)
-Theorem c05_calls_safe : forall e s x a rs s', x <> 0 ->
-  calls s x a e = (rs, s') -> forall p, In (DLink p) rs -> p = x.
+(* over any sequence of repeated dial calls of the same string and link losses,
+   every returned link is to x *)
+Theorem c05_calls_safe : forall e s x a ra rs s', x <> 0 ->
+  calls s x a ra e = (rs, s') -> forall p, In (DLink p) rs -> p = x.
 Proof. exact calls_safe. Qed.
 Print Assumptions c05_calls_safe.
 
-(* the controller's link dialer for (x, a) never holds a link to another peer,
-   for every environment (who answers when, which links are lost when) *)
-Theorem c05_dialer_never_holds_other : forall e s x a r s', x <> 0 ->
-  dialer_loop s x a e = (r, s') -> forall p, dialer_link r = Some p -> p = x /\ aget a s' = Some x.
+Theorem c05_dialer_never_holds_other : forall e s x a ra r s', x <> 0 ->
+  dialer_loop s x a ra e = (r, s') -> forall p, dialer_link r = Some p -> p = x /\ aget ra s' = Some x.
 Proof. exact dialer_loop_safe. Qed.
 Print Assumptions c05_dialer_never_holds_other.
 
-(* whenever the retry loop ends, a link to x is registered at the address *)
-Theorem c05_loop_ends_with_x : forall e s x a d s', x <> 0 ->
-  dialer_loop s x a e = (Some d, s') -> aget a s' = Some x /\ (d = DLink x \/ d = DNoLink).
+Theorem c05_loop_ends_with_x : forall e s x a ra d s', x <> 0 ->
+  dialer_loop s x a ra e = (Some d, s') ->
+  (d = DLink x /\ aget ra s' = Some x) \/ (d = DNoLink /\ aget a s' = Some x).
 Proof. exact dialer_loop_done. Qed.
 Print Assumptions c05_loop_ends_with_x.
 
 (* liveness: after ANY prefix of impostors / nobody answering / links coming and
-   going, once the address is free and x answers, the loop ends with a link to x *)
-Theorem c05_retry_reaches_x : forall s x a mid e',
-  x <> 0 ->
-  exists d s', dialer_loop s x a (mid ++ Drop :: Attempt (Peer x) :: e') = (Some d, s')
-               /\ aget a s' = Some x /\ (d = DLink x \/ d = DNoLink).
+   going, once the address is free and x answers, the loop ends with a link to x
+   (alias_clean: the links table is keyed by resolved addresses only) *)
+Theorem c05_retry_reaches_x : forall s x a ra mid e',
+  x <> 0 -> alias_clean s a ra ->
+  exists d s', dialer_loop s x a ra (mid ++ Drop :: Attempt (Peer x) :: e') = (Some d, s')
+               /\ ((d = DLink x /\ aget ra s' = Some x) \/ (d = DNoLink /\ aget a s' = Some x)).
 Proof. exact retry_reaches_x. Qed.
 Print Assumptions c05_retry_reaches_x.
 
-(* and until the impostor's link is lost the loop keeps retrying (the address
-   is "already connected with a different peer"), it never settles on the impostor *)
+(* for a dial string that is not in resolved form, x is reached by the very next
+   attempt it answers, whatever was dialed and answered before under that string *)
+Theorem c05_alias_retry_reaches_x : forall s x a ra mid e',
+  x <> 0 -> a <> ra -> aget a s = None ->
+  exists s', dialer_loop s x a ra (mid ++ Attempt (Peer x) :: e') = (Some (DLink x), s')
+             /\ aget ra s' = Some x.
+Proof. exact alias_retry_reaches_x. Qed.
+Print Assumptions c05_alias_retry_reaches_x.
+
 Theorem c05_impostor_blocks_until_lost : forall s x a i n,
   x <> 0 -> i <> x -> aget a s = None ->
-  dialer_loop s x a (Attempt (Peer i) :: repeat (Attempt (Peer x)) n) = (None, aset a i s).
+  dialer_loop s x a a (Attempt (Peer i) :: repeat (Attempt (Peer x)) n) = (None, aset a i s).
 Proof. exact impostor_blocks_until_lost. Qed.
 Print Assumptions c05_impostor_blocks_until_lost.
 
@@ -76,8 +83,11 @@ Proof. split; reflexivity. Qed.
 
 (* non-vacuity: impostor 3 answers twice, nobody, its link is lost, then x = 2 *)
 Example c05_nonvacuous :
-  dialer_loop [] 2 1 [Attempt (Peer 3); Attempt (Peer 3); Attempt Nobody; Drop; Attempt (Peer 2)]
+  dialer_loop [] 2 1 1 [Attempt (Peer 3); Attempt (Peer 3); Attempt Nobody; Drop; Attempt (Peer 2)]
     = (Some (DLink 2), [(1, 2)])
-  /\ fst (calls [] 2 1 [Attempt (Peer 3); Attempt (Peer 2); Drop; Attempt (Peer 2); Attempt (Peer 2)])
-    = [DErr; DErr; DLink 2; DNoLink].
-Proof. split; reflexivity. Qed.
+  /\ fst (calls [] 2 1 1 [Attempt (Peer 3); Attempt (Peer 2); Drop; Attempt (Peer 2); Attempt (Peer 2)])
+    = [DErr; DErr; DLink 2; DNoLink]
+  (* dial string 9 resolving to address 1: the impostor's link does not block the next dial *)
+  /\ fst (calls [] 2 9 1 [Attempt (Peer 3); Attempt (Peer 2); Attempt (Peer 2)])
+    = [DErr; DLink 2; DLink 2].
+Proof. repeat split; reflexivity. Qed.
